@@ -43,7 +43,7 @@ PROBES = ["fasta-replace-existing", "fastq-score-at-or-plus-at-line-start", "fas
           "genbank-join-location", "genbank-open-ended-location", "gff-percent-quoted", "gff-multi-location-feature",
           "stream-read-iter", "stream-write-iter", "typed-roundtrip", "rejected-op", "restart"]
 
-MEDIA = ["memory", "path", "tempfile", "wrapper", "pathobj", "shortread"]
+MEDIA = ["memory", "path", "tempfile", "wrapper", "pathobj", "shortread", "crlf"]
 
 
 class ShortReadIO(io.StringIO):
@@ -546,6 +546,14 @@ class Base:
             buf = io.StringIO()
             writer(buf)
             buf.seek(0)
+            return reader(buf)
+        if medium == "crlf":
+            # a text stream in the newline mode of another platform: what is written as "\n" is stored, and handed
+            # back on reading, as "\r\n" (io.StringIO(newline="\r\n"); a file opened with newline="\r\n" / newline="")
+            buf = io.StringIO(newline="\r\n")
+            writer(buf)
+            buf.seek(0)
+            self.res.stats["fault:crlf-stream"] += 1
             return reader(buf)
         if medium == "shortread":
             buf = io.StringIO()
